@@ -13,7 +13,7 @@
 #define T_HAS_AGE 0
 #define T_HAS_UPDTTL 0
 using C = cappuccino::fifo_cache<uint64_t, VAL_T, cappuccino::thread_safe::TS>;
-#define DECL_C(c) C c(HCAP)
+#define DECL_C(c) C c(HCAP, cfg_mlf)
 static bool x_insert(C& c, uint64_t k, uint64_t v, uint8_t a, int64_t) { return c.insert(k, VAL_T(v), (cappuccino::allow)a); }
 static bool x_erase(C& c, uint64_t k) { return c.erase(k); }
 static void x_find(C& c, uint64_t k, bool, Res& r)
